@@ -44,6 +44,15 @@ Section Vector.
       destruct (IH us R) as [i [q [w [Hq [Hw Hr]]]]]. exists (Datatypes.S i), q, w. simpl. auto.
     - exists 0%nat, p, u. simpl. auto.
   Qed.
+
+  (* the gate only filters: with the current code a value returned with limits enforced is exactly the
+     value returned with limits ignored (any number type, any family) *)
+  Lemma gate_transparent (p : prior N) (u v : N) :
+    prior_value_for A S Current p false u = Ok v -> prior_value_for A S Current p true u = Ok v.
+  Proof.
+    unfold prior_value_for, post, checked. destruct (within A p _); [|discriminate].
+    intro H. exact H.
+  Qed.
 End Vector.
 
 (* ---------- exact decimal rounding over Q ---------- *)
